@@ -1040,6 +1040,8 @@ class Avr(Machine):
             v = (R[d] | (R[d + 1] << 8)) + (k if mn == "adiw" else -k)
             self.C = 1 if (v < 0 or v > 0xFFFF) else 0
             R[d], R[d + 1] = v & 0xFF, (v >> 8) & 0xFF
+        elif mn in ("dec", "inc"):
+            d = self.reg(o[0]); R[d] = (R[d] + (1 if mn == "inc" else -1)) & 0xFF; self.Z = int(R[d] == 0)     # 8 bits: no carry into the next register
         elif mn == "com":
             d = self.reg(o[0]); R[d] = ~R[d] & 0xFF; self.C = 1
         elif mn == "lsl":
